@@ -12,7 +12,8 @@ RULE = ("Cases per function: concatenate along rows (1-4 operands, zero-row oper
         "np.where(mask, x, y) with ragged/scalar y; subset(mask) and ra[mask]; ragged_slice / NPSArray[starts:ends] on ragged, "
         "1-D and 2-D inputs with per-row starts in [0, len] and ends in [start, len], negative, or omitted.  RaggedArray "
         "operands are fresh or pending views.  Oracle = explicit per-row Python/numpy reference.  Non-trivial = some operand, "
-        "row, window or mask row is empty or all-false.")
+        "row, window or mask row is empty or all-false."
+        "  2-D inputs of ragged_slice in C / F / transposed / strided / reversed-stride layout.")
 ASSUMPTIONS = ["np.where with a scalar x is refused by the library and outside the property's 'operands' shape' domain: not asserted",
                "as_padded_matrix is asserted on arrays with at least one element"]
 
